@@ -1,3 +1,4 @@
+import AquaVerif.Proofs.CatalogueCfg
 import AquaVerif.Proofs.RunClosedEs
 import AquaVerif.Proofs.Run
 import AquaVerif.Proofs.WaterDay
@@ -245,5 +246,25 @@ theorem run_inv_no_table {F : Fn α} {T : TrigFn α} {cfg : RunCfg α} {s : RunS
     WaterInv cfg s ∧ (∀ x ∈ s.day.cells, 0 ≤ x.aer) ∧ 0 ≤ s.day.rCor :=
   run_inv_closed_no_table hC hwt hr
 end closed
+
+/-! ### run level, catalogue configurations (`Proofs/Catalogue*.lean`): every hypothesis is membership in a table
+regenerated from the sources, a fact about initialisation outputs, or a premise on the weather -/
+
+section catalogueRun
+open Aqua.Response Aqua.HarvestIndexReal
+
+/-- **Run level, catalogue configurations.** Water contents within `[th_dry, th_s]`, adjusted field
+capacity within `[th_fc, th_s]`, ponding ≥ 0, unchanged compartments in every reachable state and
+on every simulated day of every run of every catalogue configuration. -/
+theorem catalogue_run_inv {cfg : RunCfg ℝ} {s : RunState ℝ} (h : CatCfg cfg)
+    (hr : RunReach realFn realTrig cfg s) (hR : ∀ d ∈ s.daysRev, ResidualW d) :
+    WaterInv cfg s ∧ ∀ d ∈ s.daysRev, DayPre realFn d.P.W d.st.cells d.st.water ∧
+      (∀ y ∈ d.r.state.cells, y.Inv) ∧ 0 ≤ d.r.state.pond :=
+  Aqua.catalogue_run_inv h hr hR
+
+/-- the initial profile of a catalogue configuration satisfies every profile premise of `CfgOK` -/
+theorem catalogue_initial_profile {cfg : RunCfg ℝ} (h : CatCfg cfg) :
+    SoilInitOK cfg.init.cells cfg.thini := h.soil.ok
+end catalogueRun
 
 end Aqua.C03
